@@ -386,6 +386,20 @@ theorem open_phase2 {W : WList} {st : ExitStatus} {Lb : Bytes} {r : AReq} {e : R
       show ((e.tr.ev _).ev _).wlog ++ _ = _
       rw [Transport.ev_wlog, Transport.ev_wlog, hlog]) (Nat.le_refl _)).after hs1 rfl rfl
 
+/-- **A `flush` between two writes contributes nothing** (handler level): on an idle writer, with the mutex free
+and a transport whose flush succeeds at once (`fl = []`: no scripted `Pending`/error for flushes), the op takes
+the lock, flushes, releases the lock — log, input and writer table are as before.  (It is NOT part of the
+end-to-end theorem: the e2e invariants do not track the transport's flush answers.) -/
+theorem flush_step (fuel : Nat) (r : AReq) (i : Nat) (rest : List HOp) (sub : HSub)
+    (ws : List (Option Writer)) (w : Writer) (hw : ws.getD i none = some w) (pr : Bool) (e : Run.Env)
+    (hl : w.lock = .none) (hwr : w.isWriting = false) (hm : e.mutex = none) (hfl : e.tr.fl = []) :
+    ∃ e', handlerPoll (fuel + 1) r { ops := .flush i :: rest, sub := sub, writers := ws, propagate := pr } e =
+      handlerPoll fuel r { ops := rest, sub := .fresh, writers := ws.set i (some { w with lock := .none }), propagate := pr } e' ∧
+      e'.tr.wlog = e.tr.wlog ∧ e'.tr.input = e.tr.input ∧ e'.mutex = none ∧ e'.tr.fl = [] := by
+  simp only [handlerPoll, hw]
+  simp [Writer.pollFlush, hl, hwr, hm, lockPoll, Transport.flush, hfl]
+  exact ⟨_, rfl, rfl, rfl, rfl, rfl⟩
+
 /-! ## The connection level: the stages of `Proofs/E2EBufRead2` (variant 1) with this tail
 
 GENERATED from `Proofs/E2EBufRead2.lean` (the write-phase framework `HWq … tq_poll` and variant 1) by replacing the
